@@ -121,14 +121,20 @@ def worker(cases):
         t, sj, _ = _SCHEMAS[si]
         reqs.append({"op": "row.roundtrip", "sch": sj, "targets": targets, "v": R.val_json(t, v)})
     answers = drv.results(reqs)
+    domains = drv.results([dict(r, op="row.domain") for r in reqs])
     out = {"n": 0, "ties": [], "viol": [], "strata": {}, "keys": [], "samples": [], "known": []}
 
     def count(s):
         out["strata"][s] = out["strata"].get(s, 0) + 1
 
-    for (si, targets, v, stream), a in zip(cases, answers):
+    for (si, targets, v, stream), a, dm in zip(cases, answers, domains):
         t, sj, meta = _SCHEMAS[si]
         out["n"] += 1
+        # the oracle's domain must be the theorem's domain: Python mirror vs the Lean predicates
+        mirror = {"repr": R.representable(t, v), "adm": R.admissible(t, targets)}
+        if dm != mirror:
+            out["ties"].append({"what": "Representable/Admissible: harness mirror differs from the Lean predicates",
+                                "lean": dm, "harness": mirror, "schema_name": t[1], "targets": targets, "value": R.val_json(t, v)})
         cls = R.mk_class(t)
         try:
             inst = R.instance(t, v)
